@@ -1,0 +1,48 @@
+//go:build verif
+
+package ot
+
+import (
+	"github.com/taurusgroup/multi-party-sig/internal/params"
+	"github.com/taurusgroup/multi-party-sig/pkg/hash"
+	"github.com/taurusgroup/multi-party-sig/pkg/math/curve"
+)
+
+// Exported wrappers of unexported helpers, for the verification harness only (build tag verif).
+
+func VerifBitAt(i int, data []byte) byte { return bitAt(i, data) }
+
+func VerifTransposeBits(l int, m *[params.OTParam][]byte) [][params.OTBytes]byte {
+	return transposeBits(l, m)
+}
+
+// VerifAccumulate returns acc + a*b (carry-less), with acc and the result as 4 little-endian words.
+func VerifAccumulate(acc [4]uint64, a, b *[params.OTBytes]byte) [4]uint64 {
+	f := fieldElement(acc)
+	f.accumulate(a, b)
+	return [4]uint64(f)
+}
+
+func VerifFieldEq(x, y [4]uint64) bool {
+	fx, fy := fieldElement(x), fieldElement(y)
+	return fx.eq(&fy)
+}
+
+func VerifMakeGadget(ctxHash *hash.Hash, group curve.Curve) []curve.Scalar {
+	return makeGadget(ctxHash, group)
+}
+
+func VerifEncode(beta curve.Scalar, noise []curve.Scalar) ([]byte, error) { return encode(beta, noise) }
+
+// VerifCorreOTSendResult exposes the U columns and Q rows of a correlated OT send result.
+func (r *CorreOTSendResult) VerifUQ() ([params.OTParam][]byte, [][params.OTBytes]byte) { return r._U, r._Q }
+
+func (r *CorreOTReceiveResult) VerifT() [][params.OTBytes]byte { return r._T }
+func (s *CorreOTSendSetup) VerifDelta() ([params.OTBytes]byte, [params.OTParam][params.OTBytes]byte) {
+	return s._Delta, s._K_Delta
+}
+func (s *CorreOTReceiveSetup) VerifK() ([params.OTParam][params.OTBytes]byte, [params.OTParam][params.OTBytes]byte) {
+	return s._K_0, s._K_1
+}
+func (r *ExtendedOTSendResult) VerifV() ([][params.OTBytes]byte, [][params.OTBytes]byte) { return r._V0, r._V1 }
+func (r *ExtendedOTReceiveResult) VerifVChoices() [][params.OTBytes]byte                 { return r._VChoices }
